@@ -36,6 +36,28 @@ func main() {
 	hx.Init()
 	scratch := os.Getenv("VERIF_SCRATCH")
 	hx.Cases(func(c map[string]any) map[string]any {
+		if c["mode"] == "builder_alias" {
+			// one base table handed to two builders: neither may see the other's additions, the caller's slice stays as it was
+			show := func(ms []mount.Mount) []string {
+				r := []string{}
+				for _, m := range ms {
+					r = append(r, fmt.Sprintf("%s|%s|%d", m.Source, m.Target, m.Flags))
+				}
+				return r
+			}
+			ja, _ := os.MkdirTemp(scratch, "jobA")
+			jb, _ := os.MkdirTemp(scratch, "jobB")
+			defer os.RemoveAll(ja)
+			defer os.RemoveAll(jb)
+			tmp := mount.NewBuilder().WithBind("/usr", "usr", true).WithBind("/nonexistent-c05-source", "nx", true).WithBind("/bin", "bin", true).WithTmpfs("w", "size=1m")
+			base := append([]mount.Mount(nil), tmp.Mounts...)
+			before := show(base)
+			b1 := mount.NewBuilder().WithMounts(base).FilterNotExist().WithBind(ja, "src", false)
+			t1 := show(b1.Mounts)
+			b2 := mount.NewBuilder().WithMounts(base).FilterNotExist().WithBind(jb, "other", false)
+			return map[string]any{"base_before": before, "base_after": show(base), "first": t1, "first_later": show(b1.Mounts), "second": show(b2.Mounts),
+				"job_a": ja, "job_b": jb}
+		}
 		// mounts inside bind sources (this process lives in its own mount namespace)
 		var mounted []string
 		defer func() {
@@ -49,6 +71,29 @@ func main() {
 				return map[string]any{"harness_err": "submount: " + err.Error()}
 			}
 			mounted = append(mounted, p)
+		}
+		if c["mode"] == "sb_readonly" {
+			// the source of a read-only bind lies on a file system that is read-only as a whole while the sandbox is set up (made so through
+			// another mount of it) and becomes writable again later: the bind must stay read-only
+			v, _ := os.MkdirTemp(scratch, "vol")
+			v2, _ := os.MkdirTemp(scratch, "volagain")
+			if err := syscall.Mount("tmpfs", v, "tmpfs", 0, "size=1m"); err != nil {
+				return map[string]any{"harness_err": "vol: " + err.Error()}
+			}
+			mounted = append(mounted, v)
+			os.MkdirAll(v+"/data", 0755)
+			os.WriteFile(v+"/data/data.txt", []byte("x"), 0644)
+			if err := syscall.Mount(v, v2, "", syscall.MS_BIND, ""); err != nil {
+				return map[string]any{"harness_err": "second mount: " + err.Error()}
+			}
+			mounted = append(mounted, v2)
+			if err := syscall.Mount("", v2, "", syscall.MS_REMOUNT|syscall.MS_RDONLY, ""); err != nil {
+				return map[string]any{"harness_err": "remount ro: " + err.Error()}
+			}
+			c["mounts"] = []any{map[string]any{"kind": "bind", "source": v + "/data", "target": "data", "ro": true},
+				map[string]any{"kind": "tmpfs", "target": "w"}}
+			c["probe"] = []any{"/data", "/w"}
+			c["_after_build"] = v2
 		}
 		b := mount.NewBuilder().WithBind(hx.BinDir(), "vb", true)
 		for _, mm := range c["mounts"].([]any) {
@@ -118,6 +163,12 @@ func main() {
 			return out
 		}
 		defer env.Destroy()
+		if v2, ok := c["_after_build"].(string); ok {
+			// the file system becomes writable again
+			if err := syscall.Mount("", v2, "", syscall.MS_REMOUNT, ""); err != nil {
+				return map[string]any{"harness_err": "remount rw: " + err.Error()}
+			}
+		}
 		mi, _ := os.ReadFile(fmt.Sprintf("/proc/%d/mountinfo", container.InitPidVerif(env)))
 		out["mountinfo"] = string(mi)
 		buf, _ := pipe.NewBuffer(1 << 20)
